@@ -225,16 +225,21 @@ def convert_archive(archive):
     syms = sorted(syms, reverse=True)
     # ok, syms are correct.  now we get the rest.
     # we shift the readds into a separate list so that we don't reinspect
-    # them on later runs; this slightly reduces the working set.
-    additions = []
-    for x in syms:
-        affected = t.child_nodes(x.location)
-        if not affected:
-            continue
-        t.difference_update(affected)
-        additions.extend(affected.change_offset(x.location, x.resolved_target))
+    # them within a pass; a relocated node can land below another symlink
+    # though (/lib -> usr/lib, /usr/lib -> lib64), so repeat until nothing
+    # moves.  Like the kernel, give up after 40 traversals (symlink loops).
+    for _ in range(40):
+        additions = []
+        for x in syms:
+            affected = t.child_nodes(x.location)
+            if not affected:
+                continue
+            t.difference_update(affected)
+            additions.extend(affected.change_offset(x.location, x.resolved_target))
+        if not additions:
+            break
+        t.update(additions)
 
-    t.update(additions)
     t.add_missing_directories()
 
     # finally... an insane sort.
